@@ -15,6 +15,8 @@
 
 extern "C" {
    extern int g_remaining, g_consumed, g_calls, g_good, g_eof, g_fail;        /* stream state */
+   extern int g_sc_from, g_sc_k, g_sc_e;                       /* scratch of the models */
+   extern int g_i;                                           /* ghost field index of the contract */
    extern char* gp_save;                                     /* strtok's hidden state */
    extern char* gp_host; extern int* gp_lineno; extern char* gp_buf;
    extern const char** gp_f1; extern const char** gp_f2; extern const char** gp_f3; extern const char** gp_f4; extern const char** gp_f5; extern bool* gp_isint;
@@ -26,20 +28,24 @@ struct SPxOut { static void debug(const void*, const char*, ...) {} };
 /* ---- C library models ------------------------------------------------------------------------------------- */
 /* strlen / strtok are only ever applied to (suffixes of) m_buf.  A literal transcription with `while(*s ...) s++`
  * makes CBMC's symbolic execution carry 256-deep nested pointer expressions from call to call (measured: symex
- * alone > 5 min).  The models therefore compute "the first position >= from with property P" declaratively:
- *   1. ASSERT that a terminator exists at or behind `from` inside the buffer (so the position exists, P(NUL) holds
+ * alone > 5 min).  The models (contract.c, C because they use quantifier syntax) therefore compute "the first
+ * position >= from with property P" declaratively:
+ *   1. ASSERT that a terminator exists at or behind `from` inside the buffer (so the position exists; P(NUL) holds
  *      for all three P used),
  *   2. choose k nondeterministically, assume P(buf[k]) and !P(buf[j]) for every j in [from, k).
  * Both steps quantify over the CONSTANT range 0..MAX_LINE_LEN-1 (expanded by CBMC into 256 conjuncts/disjuncts;
  * constant-range quantifiers are handled exactly by the SAT back end).  The result is exactly the value the ISO C
- * function computes. */
-extern "C" int first_pos(int from, int kind);    /* defined in contract.c (quantifiers are C-only syntax) */
-static inline size_t strlen(const char* s)
-{
-   __CPROVER_assert(__CPROVER_same_object(s, gp_buf), "strlen model: argument points into m_buf");
-   int from = (int)(s - gp_buf);
-   return (size_t)(first_pos(from, 2) - from);
+ * function computes.  They keep their scratch values in ghost globals, not locals: dfcc turns every local into an
+ * addressable object and the cost of its write-set maps grows with 2^object-bits. */
+extern "C" {
+   size_t verif_strlen(const char* s);
+   char* verif_strtok(char* s, const char* delim);
+   int verif_first_nul(int from);
 }
+/* thin C++ shims: the C++ front end converts the arguments (nullptr!) to the parameter types here; calling the C
+ * functions directly from the slice crashes goto-instrument 6.11's inliner on the nullptr_t argument */
+static inline size_t strlen(const char* s) { return verif_strlen(s); }
+static inline char* strtok(char* s, const char* delim) { return verif_strtok(s, delim); }
 static inline int isdigit(int c) { return '0' <= c && c <= '9'; }
 
 /* strcmp(token, "literal"): loop-free, reads a[i] only while strcmp would (literals of the slice are <= 10 chars) */
@@ -50,32 +56,6 @@ static inline int strcmp(const char* a, const char* b)
    CMP_STEP(0) CMP_STEP(1) CMP_STEP(2) CMP_STEP(3) CMP_STEP(4) CMP_STEP(5) CMP_STEP(6) CMP_STEP(7) CMP_STEP(8) CMP_STEP(9) CMP_STEP(10)
    __CPROVER_assert(0, "strcmp model: literal longer than 10 characters");
    return 0;
-}
-
-/* strtok(s, " ") as in ISO C 7.24.5.8 for the one-character delimiter set the slice uses */
-static inline char* strtok(char* s, const char* delim)
-{
-   __CPROVER_assert(delim[0] == ' ' && delim[1] == '\0', "strtok model: delimiter set is \" \"");
-   if(s == nullptr)
-      s = gp_save;
-   if(s == nullptr)
-      return nullptr;
-   __CPROVER_assert(__CPROVER_same_object(s, gp_buf), "strtok model: argument points into m_buf");
-   int a = first_pos((int)(s - gp_buf), 0);          /* skip leading delimiters */
-   if(gp_buf[a] == '\0')
-   {
-      gp_save = nullptr;
-      return nullptr;
-   }
-   int e = first_pos(a, 1);                           /* end of the token */
-   if(gp_buf[e] == '\0')
-      gp_save = nullptr;
-   else
-   {
-      gp_buf[e] = '\0';
-      gp_save = gp_buf + e + 1;
-   }
-   return gp_buf + a;
 }
 
 /* ---- stream stub ------------------------------------------------------------------------------------------ */
@@ -92,9 +72,9 @@ struct IStreamStub
       }
       g_remaining--; g_consumed++;
       __CPROVER_havoc_slice(b, MAX_LINE_LEN);
-      int k = nondet_int();
-      __CPROVER_assume(0 <= k && k <= MAX_LINE_LEN - 1);
-      b[k] = '\0';
+      g_sc_k = nondet_int();
+      __CPROVER_assume(0 <= g_sc_k && g_sc_k <= MAX_LINE_LEN - 1);
+      b[g_sc_k] = '\0';
       g_eof = nondet_int() != 0; g_fail = nondet_int() != 0;   /* normal line / last line without newline / overlong line / bad stream */
       g_good = !g_eof && !g_fail && nondet_int() != 0;          /* (badbit also clears good()) */
       return *this;
@@ -143,15 +123,13 @@ struct H : MPSHost
    }
 };
 
-/* per field i: off[i] = offset of m_f<i> into m_buf (-1 = NULL, -2 = points outside m_buf), c0[i] = its first
- * character.  first_pos(off, 2) ASSERTS that a terminator follows inside m_buf (the "NUL-terminated suffix" claim)
- * and returns its position.  Loop-free on purpose (every statement of the wrapper is instrumented by dfcc). */
-#define FIELD_OUT(i, f) \
-   if((f) == nullptr) { off[i] = -1; end[i] = -1; c0[i] = '\0'; } \
-   else if(!__CPROVER_same_object((f), h.m_buf)) { off[i] = -2; end[i] = -1; c0[i] = '\0'; } \
-   else { off[i] = (int)((f) - h.m_buf); { int o_ = off[i]; int e_ = first_pos(o_, 2); end[i] = e_; } /* temporaries: goto-instrument 6.11 crashes on the direct form */ c0[i] = *(f); }
-extern "C" int w_readline(int section, int lineno, int is_integer, int is_new_format, int* off, int* end, char* c0,
-                          int* lineno_out)
+/* off[i] = offset of m_f<i> into m_buf (-1 = NULL, -2 = points outside m_buf).  For the ghost field index g_i of
+ * the contract: *end_i = position of the first terminator at or behind field g_i (verif_first_nul ASSERTS that one
+ * exists inside m_buf: the "NUL-terminated suffix" claim), *end_prev the same for field g_i - 1, *c0 = first
+ * character of field g_i.  Loop-free and with few locals on purpose (every local is a dfcc-tracked object). */
+#define FIELD_OFF(f) ((f) == nullptr ? -1 : (__CPROVER_same_object((f), h.m_buf) ? (int)((f) - h.m_buf) : -2))
+extern "C" int w_readline(int section, int lineno, int is_integer, int is_new_format, int* off, int* end_i, int* end_prev,
+                          char* c0, int* lineno_out)
 {
    H h;
    h.m_section = (MPSHost::Section)section; h.m_lineno = lineno; h.m_is_integer = is_integer != 0; h.m_is_new_format = is_new_format != 0;
@@ -160,9 +138,18 @@ extern "C" int w_readline(int section, int lineno, int is_integer, int is_new_fo
    gp_host = (char*)&h; gp_lineno = &h.m_lineno; gp_buf = h.m_buf; gp_save = nullptr;
    gp_f1 = &h.m_f1; gp_f2 = &h.m_f2; gp_f3 = &h.m_f3; gp_f4 = &h.m_f4; gp_f5 = &h.m_f5; gp_isint = &h.m_is_integer;
    bool r = h.body();
-   if(r)
+   off[0] = FIELD_OFF(h.m_f0); off[1] = FIELD_OFF(h.m_f1); off[2] = FIELD_OFF(h.m_f2);
+   off[3] = FIELD_OFF(h.m_f3); off[4] = FIELD_OFF(h.m_f4); off[5] = FIELD_OFF(h.m_f5);
+   *end_i = -1; *end_prev = -1; *c0 = '\0';
+   int o_, e_;                                      /* temporaries: goto-instrument 6.11 crashes on f(a[i]) / *p = f() */
+   if(r && off[g_i] >= 0)
    {
-      FIELD_OUT(0, h.m_f0) FIELD_OUT(1, h.m_f1) FIELD_OUT(2, h.m_f2) FIELD_OUT(3, h.m_f3) FIELD_OUT(4, h.m_f4) FIELD_OUT(5, h.m_f5)
+      o_ = off[g_i]; e_ = verif_first_nul(o_); *end_i = e_;
+      *c0 = h.m_buf[o_];
+   }
+   if(r && g_i >= 1 && off[g_i - 1] >= 0)
+   {
+      o_ = off[g_i - 1]; e_ = verif_first_nul(o_); *end_prev = e_;
    }
    *lineno_out = h.m_lineno;
    return r ? 1 : 0;
